@@ -6,7 +6,7 @@ From Coq Require Import ZArith List Bool.
 From Alliance Require Import Num KMap Types Monad Model Step Spec Hoare WitnessLib.
 From Alliance.Witness Require Import F_C08_missing_destination F_C08_shrunken_destination F_C08_zero_value F_C08_pool_short F_C08_div_zero_settlement.
 From Alliance.Proofs Require Import Flag Misc.
-From Alliance.Proofs Require Import FailureModes.
+From Alliance.Proofs Require Import FailureModes RedelSync.
 Import ListNotations.
 Open Scope Z_scope.
 
@@ -57,3 +57,24 @@ Print Assumptions C08_no_alliance_stake.
 Theorem C08_failure_modes : forall v f, raises (fun e => In e slash_codes) (hook_slash v f).
 Proof. exact slash_failure_modes. Qed.
 Print Assumptions C08_failure_modes.
+
+(* one of those failure modes is excluded in every reachable state: every key of the per-source redelegation
+   index has its record (and its entry in the time queue), so the walk over pending redelegations never meets
+   a key without record *)
+Theorem C08_every_index_key_has_its_record : forall h src ct dn dst del, let s := run init_state h in
+  kget (redelidx s) [src; ct; dn; dst; del] = Some tt ->
+  (exists r, kget (redels s) [del; dn; dst; ct] = Some r) /\
+  (exists l e, kget (redelq s) [ct] = Some l /\ In e l /\ r_src e = src /\ r_del e = del /\ r_dst e = dst /\ r_denom e = dn).
+Proof. exact every_index_key_has_its_record. Qed.
+Print Assumptions C08_every_index_key_has_its_record.
+Theorem C08_slash_of_redelegations_never_misses_a_record : forall h v f, let s := run init_state h in
+  match slash_redelegations v f s with Err e _ => e <> Monad.E_MISSING_RECORD | Panic e _ => e <> Monad.E_MISSING_RECORD | Ok _ _ => True end.
+Proof. exact slash_redelegations_finds_its_records. Qed.
+Print Assumptions C08_slash_of_redelegations_never_misses_a_record.
+
+(* ... nor does the callback as a whole: in every reachable state it never fails on a missing record or a
+   malformed index key (the invariants hold at every intermediate state of the callback) *)
+Theorem C08_callback_never_misses_a_record : forall h v f, let s := run init_state h in
+  match hook_slash v f s with Err e _ => e <> Monad.E_MISSING_RECORD | Panic e _ => e <> Monad.E_MISSING_RECORD | Ok _ _ => True end.
+Proof. exact slash_callback_never_misses_a_record. Qed.
+Print Assumptions C08_callback_never_misses_a_record.
